@@ -114,10 +114,25 @@ class Exc(Val):
     __slots__ = ("cls", "args", "cause", "suppress", "id", "origin", "notes")
 
     def __init__(self, cls, args=(), cause=None, suppress=False, origin=None):
+        # cls: a class name, or a frozenset of class names ("one of these", narrowed lazily by except clauses)
         self.cls, self.args, self.cause, self.suppress = cls, list(args), cause, suppress
         self.id = fresh_id()
         self.origin = origin  # where it was raised: callee name or 'explicit'
         self.notes = []
+
+    def classes(self):
+        return self.cls if isinstance(self.cls, frozenset) else frozenset([self.cls])
+
+    def narrow(self, classes):
+        """the same exception object (same id), known to be of one of `classes`."""
+        classes = frozenset(classes)
+        e = Exc(next(iter(classes)) if len(classes) == 1 else classes, self.args, self.cause, self.suppress, self.origin)
+        e.id = self.id
+        e.notes = self.notes
+        return e
+
+    def same(self, other):
+        return isinstance(other, Exc) and other.id == self.id
 
     def __repr__(self):
         return f"Exc<{self.cls}#{self.id} from {self.origin}>"
@@ -221,6 +236,8 @@ def exc_ancestors(c):
 
 
 def exc_isinstance(c, handler):
+    if isinstance(c, frozenset):
+        return all(handler in exc_ancestors(x) for x in c)
     return handler in exc_ancestors(c)
 
 
@@ -293,3 +310,22 @@ class State:
 
     def put(self, ref, obj):
         self.heap[ref.h] = obj
+
+
+def exc_representatives(*fn_nodes):
+    """classes an opaque callee may raise, partitioning the hierarchy w.r.t. the `except` clauses that occur in the
+    given functions: every class named in a handler, plus 'any other Exception' and 'any non-Exception BaseException'."""
+    import ast as _ast
+
+    named = []
+    for fn in fn_nodes:
+        for n in _ast.walk(fn):
+            if isinstance(n, _ast.ExceptHandler) and n.type is not None:
+                for x in n.type.elts if isinstance(n.type, _ast.Tuple) else [n.type]:
+                    nm = x.id if isinstance(x, _ast.Name) else getattr(x, "attr", None)
+                    if nm and nm not in ("Exception", "BaseException") and nm not in named:
+                        named.append(nm)
+    reps = list(named)
+    if "TypeError" in reps:
+        reps[reps.index("TypeError")] = "OtherTypeError"
+    return reps + ["OtherException", "NonExceptionBase"]
